@@ -1086,6 +1086,115 @@ func ruleMergeRead(w *World, r *Report, pkg *ssa.Package) {
 			}
 		}
 	}
+	// the whole-object hunk: a fresh empty object is written only for an
+	// EMPTY patch object (RFC 7386 merges a non-empty one member by member;
+	// replacing the target there loses the members the patch does not mention)
+	isEmptyObj := func(v ssa.Value) bool {
+		v = strip(v)
+		if mm, ok := v.(*ssa.MakeMap); ok {
+			if typeName(mm.Type()) != "jsonObject" {
+				return false
+			}
+			for _, ref := range *mm.Referrers() {
+				if _, isUpd := ref.(*ssa.MapUpdate); isUpd {
+					return false
+				}
+			}
+			return true
+		}
+		c, ok := v.(*ssa.Call)
+		if !ok {
+			return false
+		}
+		sf := staticCallee(c)
+		if sf == nil || sf.Blocks == nil || fnPkg(sf) != pkg.Pkg || len(sf.Params) != 0 || typeName(sf.Signature.Results().At(0).Type()) != "jsonObject" {
+			return false
+		}
+		for _, ret := range returnsOf(sf) {
+			if _, isMM := strip(ret.Results[0]).(*ssa.MakeMap); !isMM {
+				return false
+			}
+		}
+		return true
+	}
+	nEmpty := 0
+	for _, in := range allIn {
+		v, ok := in.(ssa.Value)
+		if !ok || strip(v) != v || !isEmptyObj(v) {
+			continue
+		}
+		f := in.Parent()
+		// only where the empty object becomes (part of) a hunk: stored into a
+		// list literal, or handed to a function of the reader's scope
+		inScope := map[*ssa.Function]bool{}
+		for _, sf := range scope {
+			inScope[sf] = true
+		}
+		feeds := false
+		var uses func(x ssa.Value, depth int)
+		uses = func(x ssa.Value, depth int) {
+			if x.Referrers() == nil || depth > 3 {
+				return
+			}
+			for _, ref := range *x.Referrers() {
+				switch y := ref.(type) {
+				case *ssa.MakeInterface:
+					uses(y, depth+1)
+				case *ssa.ChangeType:
+					uses(y, depth+1)
+				case *ssa.Store:
+					if _, isElem := y.Addr.(*ssa.IndexAddr); isElem && y.Val == x {
+						feeds = true
+					}
+				case *ssa.Call:
+					if y.Call.IsInvoke() {
+						continue
+					}
+					if sf := staticCallee(y); sf != nil && inScope[sf] {
+						for _, a := range y.Call.Args {
+							if a == x {
+								feeds = true
+							}
+						}
+					}
+				}
+			}
+		}
+		uses(v, 0)
+		if !feeds {
+			continue
+		}
+		nEmpty++
+		guarded := false
+		for _, b := range f.Blocks {
+			cond, tE, fE, okb := branchEdges(b)
+			if !okb {
+				continue
+			}
+			bo, okc := cond.(*ssa.BinOp)
+			if !okc || (bo.Op != token.EQL && bo.Op != token.NEQ) {
+				continue
+			}
+			t, off, isC, okT := termOf(bo.X)
+			k, okK := constInt(bo.Y)
+			if !okT || isC || !t.isLen || off != 0 || !okK || k != 0 {
+				continue
+			}
+			if _, isMap := t.v.Type().Underlying().(*types.Map); !isMap {
+				continue
+			}
+			e := tE
+			if bo.Op == token.NEQ {
+				e = fE
+			}
+			if e.To() == in.Block() || edgeDominates(e, in.Block()) {
+				guarded = true
+			}
+		}
+		r.Check(guarded, rule, fmt.Sprintf("%s:empty-object-hunk#%d", fnName(f), nEmpty), w.Pos(in.Pos()),
+			"the hunk that writes a fresh empty object is built only on the edge where the patch object has no members",
+			"a hunk that writes a fresh empty object (replacing whatever is there) is built for a patch object that may have members: the members of the target that the patch does not mention are lost, RFC 7386 keeps them")
+	}
 	r.Check(conv, rule, fnName(fn)+":null-becomes-void", w.Pos(fn.Pos()), "a null in the merge patch becomes a void addition (delete the member)", "null values of a merge patch are no longer turned into deletions")
 }
 
@@ -1170,4 +1279,430 @@ func isStringArgCall(c *ssa.Call) bool {
 	}
 	b, ok := c.Call.Args[0].Type().Underlying().(*types.Basic)
 	return ok && b.Kind() == types.String
+}
+
+// ruleVoidArg: the diff functions are never handed the void node as the
+// other side by the library itself. (The merge arms put nodeList(n) into Add;
+// nodeList drops void, so a void argument yields a merge hunk that adds
+// nothing, which RenderMerge cannot turn into null.) The one deletion marker
+// — a merge hunk whose Add is exactly [void] — is built as a literal.
+func ruleVoidArg(w *World, r *Report, pkg *ssa.Package) {
+	const rule = "R-VOIDARG"
+	fam := map[*ssa.Function]bool{}
+	for _, fn := range diffFunctions(w, pkg) {
+		fam[fn] = true
+	}
+	diffT := pkg.Type("Diff")
+	n, nMarker := 0, 0
+	h := newHunkType(pkg)
+	for _, fn := range diffFunctions(w, pkg) {
+		k := 0
+		withClosures(fn, func(f *ssa.Function) {
+			allInstrs(f, func(in ssa.Instruction) {
+				switch x := in.(type) {
+				case *ssa.Call:
+					isFam := false
+					if x.Call.IsInvoke() {
+						sig := x.Call.Method.Type().(*types.Signature)
+						for i := 0; i < sig.Results().Len(); i++ {
+							if diffT != nil && types.Identical(sig.Results().At(i).Type(), diffT.Type()) && !x.Call.Method.Exported() {
+								isFam = true
+							}
+						}
+					} else if sf := staticCallee(x); sf != nil && fam[sf] {
+						isFam = true
+					}
+					if !isFam {
+						return
+					}
+					n++
+					k++
+					// the other side: the first node-typed argument of an interface
+					// call, the second node-typed operand (after the receiver /
+					// the node itself) of a static call
+					bad := ""
+					skip := 1
+					if x.Call.IsInvoke() {
+						skip = 0
+					}
+					for _, a := range x.Call.Args {
+						if !isNodeish(w, pkg, a.Type()) {
+							continue
+						}
+						if skip > 0 {
+							skip--
+							continue
+						}
+						if typeName(strip(a).Type()) == "voidNode" {
+							bad = valueName(strip(a))
+						}
+						break
+					}
+					r.Check(bad == "", rule, fmt.Sprintf("%s:diff-call#%d", fnName(fn), k), w.Pos(x.Pos()),
+						"the nested diff is handed a node of the other document, not the void marker",
+						"a nested diff is handed the void marker as the other side: under merge strategy the callee's hunk adds nodeList(void) = nothing, so the deletion is lost from the rendered merge patch")
+				case *ssa.Store:
+					// Add: []JsonNode{voidNode{}} in a hunk literal
+					fa, ok := x.Addr.(*ssa.FieldAddr)
+					if !ok || fieldName(fa.X.Type(), fa.Field) != "Add" {
+						return
+					}
+					bt := fa.X.Type()
+					if p, ok := bt.Underlying().(*types.Pointer); ok {
+						bt = p.Elem()
+					}
+					if !types.Identical(bt, h.named) || !oneElemSlice(x.Val, 0) {
+						return
+					}
+					for _, e := range appendedElems(x.Val) {
+						_ = e
+					}
+					if sl, ok := strip(x.Val).(*ssa.Slice); ok {
+						if a, ok := sl.X.(*ssa.Alloc); ok {
+							for _, ref := range *a.Referrers() {
+								if ia, ok := ref.(*ssa.IndexAddr); ok {
+									for _, r2 := range *ia.Referrers() {
+										if st, ok := r2.(*ssa.Store); ok && typeName(strip(st.Val).Type()) == "voidNode" {
+											nMarker++
+										}
+									}
+								}
+							}
+						}
+					}
+				}
+			})
+		})
+		if k > 0 {
+			r.Fn(fnName(fn))
+		}
+	}
+	if n < 6 {
+		r.Bad(rule, "v2:instance-floor", "-", fmt.Sprintf("only %d nested diff calls found", n))
+	}
+	r.Check(nMarker >= 1, rule, "v2:deletion-marker", "-", "the deletion of a key under merge strategy is a hunk literal whose Add is exactly [void]",
+		"no diff function builds the merge deletion marker (a hunk whose Add is exactly [void]) any more")
+}
+
+// ---------------------------------------------------------------- R-CTXINDEX
+//
+// The JSON Patch writer tests the context of an array hunk at computed
+// positions: the element before the hunk at index-1 and the element after it
+// at index+len(Remove) (the tests are emitted before the removals, RFC 6902
+// evaluates them against the unchanged array). Every computed path index in
+// RenderPatch is normalised to a linear form over the atoms INDEX (the
+// hunk's own last path index) and len(<hunk>.Remove); it must equal the
+// expected form for the context field its branch is about. A value chosen by
+// a phi is evaluated edge by edge under the guard facts of that edge (so
+// `next := index; if len(Remove) > 0 { next += len(Remove) }` is accepted and
+// `if len(Remove) > 0 { next++ }` is not).
+
+type linForm struct {
+	coef map[string]int64
+	c    int64
+}
+
+func (a linForm) add(b linForm, sign int64) linForm {
+	out := linForm{coef: map[string]int64{}, c: a.c + sign*b.c}
+	for k, v := range a.coef {
+		out.coef[k] += v
+	}
+	for k, v := range b.coef {
+		out.coef[k] += sign * v
+	}
+	for k, v := range out.coef {
+		if v == 0 {
+			delete(out.coef, k)
+		}
+	}
+	return out
+}
+
+func pathKey(v ssa.Value) string {
+	root, sel := accessPath(v)
+	return fmt.Sprintf("%p%s", root, selString(sel))
+}
+
+// lin: linear form of an integer-valued value; ok=false for phis and
+// anything non-linear.
+func lin(v ssa.Value) (linForm, bool) {
+	for {
+		switch x := v.(type) {
+		case *ssa.ChangeType:
+			v = x.X
+			continue
+		case *ssa.Convert:
+			if isIntType(x.X.Type()) && isIntType(x.Type()) {
+				v = x.X
+				continue
+			}
+		}
+		break
+	}
+	if k, ok := constInt(v); ok {
+		return linForm{coef: map[string]int64{}, c: k}, true
+	}
+	switch x := v.(type) {
+	case *ssa.BinOp:
+		if x.Op == token.ADD || x.Op == token.SUB {
+			a, ok1 := lin(x.X)
+			b, ok2 := lin(x.Y)
+			if !ok1 || !ok2 {
+				return linForm{}, false
+			}
+			if x.Op == token.ADD {
+				return a.add(b, 1), true
+			}
+			return a.add(b, -1), true
+		}
+	case *ssa.Call:
+		if c, ok := isBuiltinCall(x, "len"); ok {
+			_, sel := accessPath(c.Call.Args[0])
+			if len(sel) > 0 {
+				return linForm{coef: map[string]int64{"len:" + pathKey(c.Call.Args[0]): 1}}, true
+			}
+		}
+	case *ssa.Extract:
+		if ta, ok := x.Tuple.(*ssa.TypeAssert); ok && x.Index == 0 && typeName(ta.AssertedType) == "PathIndex" {
+			return linForm{coef: map[string]int64{"INDEX": 1}}, true
+		}
+	case *ssa.TypeAssert:
+		if !x.CommaOk && typeName(x.AssertedType) == "PathIndex" {
+			return linForm{coef: map[string]int64{"INDEX": 1}}, true
+		}
+	case *ssa.Phi:
+		return linForm{}, false
+	}
+	return linForm{coef: map[string]int64{fmt.Sprintf("val:%p", v): 1}}, true
+}
+
+func ruleCtxIndex(w *World, r *Report, pkg *ssa.Package) {
+	const rule = "R-CTXINDEX"
+	fn := w.Method(pkg, "Diff", "RenderPatch")
+	r.Fn(fnName(fn))
+	isPI := func(t types.Type) bool { return typeName(t) == "PathIndex" }
+	// candidates: computed PathIndex values not feeding another computed PathIndex
+	var cands []ssa.Value
+	withClosures(fn, func(f *ssa.Function) {
+		allInstrs(f, func(in ssa.Instruction) {
+			v, ok := in.(ssa.Value)
+			if !ok || !isPI(v.Type()) {
+				return
+			}
+			switch in.(type) {
+			case *ssa.BinOp, *ssa.Phi:
+			default:
+				return
+			}
+			inner := false
+			for _, ref := range *v.Referrers() {
+				if rv, ok := ref.(ssa.Value); ok && isPI(rv.Type()) {
+					switch ref.(type) {
+					case *ssa.BinOp, *ssa.Phi:
+						inner = true
+					}
+				}
+			}
+			if !inner {
+				cands = append(cands, v)
+			}
+		})
+	})
+	// role of a block: the context field mentioned by the closest dominating branch
+	roleOf := func(b *ssa.BasicBlock) (string, string) {
+		best, bestKey := "", ""
+		var bestBlk *ssa.BasicBlock
+		for _, bb := range b.Parent().Blocks {
+			cond, tE, fE, ok := branchEdges(bb)
+			if !ok || !(edgeDominates(tE, b) || edgeDominates(fE, b) || tE.To() == b || fE.To() == b) {
+				continue
+			}
+			role, key := "", ""
+			var scan func(v ssa.Value, depth int)
+			scan = func(v ssa.Value, depth int) {
+				if depth > 4 || v == nil {
+					return
+				}
+				root, sel := accessPath(v)
+				s := selString(sel)
+				for _, f := range []string{"Before", "After"} {
+					if i := strings.Index(s, "."+f); i >= 0 {
+						role, key = f, fmt.Sprintf("%p%s", root, s[:i])
+					}
+				}
+				switch x := v.(type) {
+				case *ssa.BinOp:
+					scan(x.X, depth+1)
+					scan(x.Y, depth+1)
+				case *ssa.UnOp:
+					if x.Op == token.NOT {
+						scan(x.X, depth+1)
+					}
+				case *ssa.Call:
+					for _, a := range x.Call.Args {
+						scan(a, depth+1)
+					}
+				}
+			}
+			scan(cond, 0)
+			if role == "" {
+				continue
+			}
+			if bestBlk == nil || bestBlk.Dominates(bb) {
+				best, bestKey, bestBlk = role, key, bb
+			}
+		}
+		return best, bestKey
+	}
+	n := map[string]int{}
+	factsOf := map[*ssa.Function]*Facts{}
+	getFacts := func(f *ssa.Function) *Facts {
+		if factsOf[f] == nil {
+			factsOf[f] = NewFacts(f, nil)
+		}
+		return factsOf[f]
+	}
+	// one obligation per (candidate, context in which it is evaluated): in
+	// RenderPatch itself, or in a helper at each of its call sites in
+	// RenderPatch with the parameters replaced by the arguments' forms
+	check := func(cv ssa.Value, roleBlk *ssa.BasicBlock, subst map[string]linForm, via string) {
+		in := cv.(ssa.Instruction)
+		role, hunk := roleOf(roleBlk)
+		if role == "" {
+			return
+		}
+		n[role]++
+		removeAtom := "len:" + hunk + ".Remove"
+		want := linForm{coef: map[string]int64{"INDEX": 1}, c: -1}
+		wantTxt := "index-1"
+		if role == "After" {
+			want = linForm{coef: map[string]int64{"INDEX": 1, removeAtom: 1}}
+			wantTxt = "index+len(Remove)"
+		}
+		fs := getFacts(in.Parent())
+		callerFacts := getFacts(roleBlk.Parent())
+		callerState, _ := callerFacts.At(roleBlk)
+		// zero under a fact state: every remaining atom must be pinned by the facts
+		zero := func(res linForm, st state) bool {
+			c := res.c
+			for k, coef := range res.coef {
+				if k != removeAtom {
+					return false
+				}
+				pinned := false
+				for _, s2 := range []state{st, callerState} {
+					for t, f := range s2 {
+						if !pinned && t.isLen && t.w == nil && "len:"+pathKey(t.v) == removeAtom && f.minVal() == f.maxVal() {
+							c += coef * f.minVal()
+							pinned = true
+						}
+					}
+				}
+				if !pinned {
+					return false
+				}
+			}
+			return c == 0
+		}
+		var eval func(v ssa.Value, st state, depth int) (bool, string)
+		eval = func(v ssa.Value, st state, depth int) (bool, string) {
+			if phi, ok := v.(*ssa.Phi); ok && depth < 4 {
+				for i, e := range phi.Edges {
+					pred := phi.Block().Preds[i]
+					if !fs.reach[pred] {
+						continue
+					}
+					si := -1
+					for j, s := range pred.Succs {
+						if s == phi.Block() {
+							si = j
+						}
+					}
+					est, feasible := fs.edgeState(pred, si)
+					if !feasible {
+						continue
+					}
+					if ok, why := eval(e, est, depth+1); !ok {
+						return false, why
+					}
+				}
+				return true, ""
+			}
+			lf, ok := lin(v)
+			if !ok {
+				return false, "not a linear expression of the hunk's index"
+			}
+			// parameters of a helper stand for the arguments at this call site
+			for k, coef := range lf.coef {
+				if sub, ok := subst[k]; ok {
+					delete(lf.coef, k)
+					scaled := linForm{coef: map[string]int64{}, c: sub.c * coef}
+					for kk, vv := range sub.coef {
+						scaled.coef[kk] = vv * coef
+					}
+					lf = lf.add(scaled, 1)
+				}
+			}
+			res := lf.add(want, -1)
+			if zero(res, st) {
+				return true, ""
+			}
+			return false, fmt.Sprintf("%s differs from %s", valueName(v), wantTxt)
+		}
+		st, _ := fs.At(in.Block())
+		ok, why := eval(cv, st, 0)
+		r.Check(ok, rule, fmt.Sprintf("%s:%s-index#%d%s", fnName(fn), strings.ToLower(role), n[role], via), w.Pos(in.Pos()),
+			fmt.Sprintf("the %s-context test addresses %s", strings.ToLower(role), wantTxt),
+			fmt.Sprintf("the %s-context test does not address %s (%s): an RFC 6902 evaluation tests another element than jd's own reader, which infers the context from the values only", strings.ToLower(role), wantTxt, why))
+	}
+	for _, cv := range cands {
+		in := cv.(ssa.Instruction)
+		if in.Parent() != fn {
+			continue
+		}
+		check(cv, in.Block(), nil, "")
+	}
+	// helpers called from RenderPatch that compute a path index from a parameter
+	allInstrs(fn, func(in ssa.Instruction) {
+		c, ok := in.(*ssa.Call)
+		if !ok {
+			return
+		}
+		g := staticCallee(c)
+		if g == nil || g.Blocks == nil || fnPkg(g) != pkg.Pkg || g.Parent() != nil || len(c.Call.Args) != len(g.Params) {
+			return
+		}
+		subst := map[string]linForm{}
+		for i, p := range g.Params {
+			if !isIntType(p.Type()) {
+				continue
+			}
+			if lf, ok := lin(c.Call.Args[i]); ok {
+				subst[fmt.Sprintf("val:%p", ssa.Value(p))] = lf
+			}
+		}
+		allInstrs(g, func(in2 ssa.Instruction) {
+			v, ok := in2.(ssa.Value)
+			if !ok || !isPI(v.Type()) {
+				return
+			}
+			switch in2.(type) {
+			case *ssa.BinOp, *ssa.Phi:
+			default:
+				return
+			}
+			for _, ref := range *v.Referrers() {
+				if rv, ok := ref.(ssa.Value); ok && isPI(rv.Type()) {
+					switch ref.(type) {
+					case *ssa.BinOp, *ssa.Phi:
+						return
+					}
+				}
+			}
+			check(v, c.Block(), subst, "→"+g.Name())
+		})
+	})
+	if n["Before"] < 1 || n["After"] < 1 {
+		r.Bad(rule, fnName(fn)+":instance-floor", w.Pos(fn.Pos()), fmt.Sprintf("context index computations found: before=%d after=%d", n["Before"], n["After"]))
+	}
 }
